@@ -27,6 +27,7 @@ Definition owed (p : pc) : Z :=
   | SwcSub _ _ d => - d
   | SpSub _ _ _ _ d => - d
   | OpAdd _ delta => delta
+  | ClrSub _ d => - d
   | _ => 0
   end.
 Fixpoint sum_owed (thr : list (pc * list call)) : Z :=
@@ -43,11 +44,10 @@ Definition pc_ok (p : pc) : Prop :=
   | SwcSub _ _ d => (0 <= d)%Z
   | SpSub _ _ _ _ d => (0 <= d)%Z
   | OpAdd _ delta => (delta <= 1)%Z
-  | ClrSeg _ => False
-  | OpLock CClear => False
+  | ClrSub _ d => (0 <= d)%Z
   | _ => True
   end.
-Definition thr_ok (th : pc * list call) : Prop := pc_ok (fst th) /\ ~ In CClear (snd th).
+Definition thr_ok (th : pc * list call) : Prop := pc_ok (fst th).
 
 (* which segment lock a thread holds *)
 Section Holds.
@@ -56,6 +56,7 @@ Section Holds.
     match p with
     | SwcAdd k _ _ | SwcLoad k _ | SwcSub k _ _ => Some (sidx n k)
     | OpAdd i _ => Some i
+    | ClrSub i _ => Some i
     | _ => None
     end.
 End Holds.
@@ -180,16 +181,14 @@ Section ConcProofs.
     destruct (nth tid (c_thr s) (Idle, [])) as [p rest] eqn:Eth.
     destruct (Nat.leb_spec (length (c_thr s)) tid) as [|Htid]; [discriminate|].
     assert (Hin : In (p, rest) (c_thr s)) by (rewrite <- Eth; apply nth_In; exact Htid).
-    destruct (Ht _ Hin) as [Hpok Hrest]. simpl in Hpok, Hrest.
+    pose proof (Ht _ Hin) as Hpok. unfold thr_ok in Hpok. simpl in Hpok.
     set (m := c_map s) in *. set (n := nsegs m) in *.
     assert (Hn : 0 < n) by apply Hs.
     destruct p; simpl in Hpok.
     - (* Idle: invoke the next call *)
       destruct rest as [|c rest']; [discriminate|]. intros E; inversion E; subst s'.
-      eapply with_pc_inv; eauto.
-      + split; simpl.
-        * destruct c; simpl; auto. apply Hrest. left. reflexivity.
-        * intro Hc. apply Hrest. right. exact Hc.
+      eapply with_pc_inv; [exact I|exact Htid|exact Eth|eassumption| |].
+      + unfold thr_ok. destruct c; simpl; auto.
       + subst m. destruct c; simpl; lia.
     - (* SwcLock *)
       destruct (lock_free s (sidx n k)); [|discriminate]. intros E; inversion E; subst s'.
@@ -197,13 +196,13 @@ Section ConcProofs.
       destruct (put_ok (seg m (sidx n k)) k v (sidx n k) n) as [W' [Hh' Hsz]]; auto.
       { apply Hs; auto. } { apply seg_home; auto. }
       destruct (segs_ok_set m (sidx n k) (tput mix (seg m (sidx n k)) k v) (sm_count m) Hs Hi W' Hh') as [S' [_ Hsum]].
-      eapply with_pc_inv; eauto.
-      + split; simpl; auto.
+      eapply with_pc_inv; [exact I|exact Htid|exact Eth|eassumption| |].
+      + unfold thr_ok; simpl; auto.
       + rewrite Hsum. simpl. destruct (tlen (seg m (sidx n k)) <? tlen (tput mix (seg m (sidx n k)) k v))%Z; subst n m; simpl; lia.
     - (* SwcAdd *)
       intros E; inversion E; subst s'.
-      eapply with_pc_inv; eauto.
-      + split; simpl; auto.
+      eapply with_pc_inv; [exact I|exact Htid|exact Eth|eassumption| |].
+      + unfold thr_ok; simpl; auto.
       + subst n m. simpl. destruct isnew; lia.
     - (* SwcLoad *)
       assert (Hi : sidx n k < n) by (apply sidx_lt; auto).
@@ -213,20 +212,20 @@ Section ConcProofs.
         destruct H1 as [W' [Hh' [Hsz Hd]]]. { apply Hs; auto. } { apply seg_home; auto. }
         intros E; inversion E; subst s'.
         destruct (segs_ok_set m (sidx n k) t2 (sm_count m) Hs Hi W' Hh') as [S' [_ Hsum]].
-        eapply with_pc_inv; eauto.
-        * split; simpl; auto.
+        eapply with_pc_inv; [exact I|exact Htid|exact Eth|eassumption| |].
+        * unfold thr_ok; simpl; auto.
         * rewrite Hsum. subst n m. simpl. lia.
       + intros E; inversion E; subst s'.
-        eapply with_pc_inv; eauto. split; simpl; auto.
+        eapply with_pc_inv; [exact I|exact Htid|exact Eth|eassumption| |]; [unfold thr_ok; simpl; auto|subst n m; simpl; lia].
     - (* SwcSub *)
       intros E; inversion E; subst s'.
-      eapply with_pc_inv; eauto.
-      + split; simpl; auto. destruct (evict_toll_deficit - d <=? 0)%Z; simpl; auto.
+      eapply with_pc_inv; [exact I|exact Htid|exact Eth|eassumption| |].
+      + unfold thr_ok; simpl. destruct (evict_toll_deficit - d <=? 0)%Z; simpl; auto.
       + subst n m. simpl. destruct (Z.ltb_spec 0 d); destruct (evict_toll_deficit - d <=? 0)%Z; simpl; lia.
     - (* SpLoad *)
       intros E; inversion E; subst s'.
-      eapply with_pc_inv; eauto.
-      + split; simpl; auto.
+      eapply with_pc_inv; [exact I|exact Htid|exact Eth|eassumption| |].
+      + unfold thr_ok; simpl.
         destruct ((i <? n) && (0 <? deficit)%Z); simpl; auto. destruct (sm_count m <=? cap)%Z; simpl; auto.
       + destruct ((i <? n) && (0 <? deficit)%Z); simpl; try (subst n m; lia). destruct (sm_count m <=? cap)%Z; subst n m; simpl; lia.
     - (* SpEvict *)
@@ -238,13 +237,13 @@ Section ConcProofs.
       destruct H1 as [W' [Hh' [Hsz Hd]]]. { apply Hs; auto. } { apply seg_home; auto. }
       intros E; inversion E; subst s'.
       destruct (segs_ok_set m j t2 (sm_count m) Hs Hj W' Hh') as [S' [_ Hsum]].
-      eapply with_pc_inv; eauto.
-      + split; simpl; auto.
+      eapply with_pc_inv; [exact I|exact Htid|exact Eth|eassumption| |].
+      + unfold thr_ok; simpl; auto.
       + rewrite Hsum. subst j n m. simpl. lia.
     - (* SpSub *)
       destruct (Z.ltb_spec 0 d); intros E; inversion E; subst s'.
-      + eapply with_pc_inv; eauto. { split; simpl; auto. } subst n m. simpl. lia.
-      + eapply with_pc_inv; eauto. { split; simpl; auto. } subst n m. simpl. lia.
+      + eapply with_pc_inv; [exact I|exact Htid|exact Eth|eassumption| |]; [unfold thr_ok; simpl; auto|subst n m; simpl; lia].
+      + eapply with_pc_inv; [exact I|exact Htid|exact Eth|eassumption| |]; [unfold thr_ok; simpl; auto|subst n m; simpl; lia].
     - (* OpLock *)
       set (i := sidx n (call_key c)).
       assert (Hi : i < n) by (apply sidx_lt; auto).
@@ -254,16 +253,30 @@ Section ConcProofs.
       destruct H1 as [W' [Hh' [Hsz Hd]]]; auto. { apply Hs; auto. } { apply seg_home; auto. }
       intros E; inversion E; subst s'.
       destruct (segs_ok_set m i t' (sm_count m) Hs Hi W' Hh') as [S' [_ Hsum]].
-      eapply with_pc_inv; eauto.
-      + split; simpl; auto.
+      eapply with_pc_inv; [exact I|exact Htid|exact Eth|eassumption| |].
+      + unfold thr_ok; simpl; auto.
       + rewrite Hsum. subst i n m. simpl. lia.
     - (* OpAdd *)
       intros E; inversion E; subst s'.
-      eapply with_pc_inv; eauto.
-      + split; simpl; auto.
+      eapply with_pc_inv; [exact I|exact Htid|exact Eth|eassumption| |].
+      + unfold thr_ok; simpl; auto.
       + subst n m. simpl. lia.
-    - (* ClrSeg: excluded *)
-      contradiction.
+    - (* ClrSeg: lock, remember Len, clear *)
+      destruct (Nat.ltb_spec i n) as [Hi|Hi].
+      + destruct (lock_free s i); [|discriminate]. intros E; inversion E; subst s'.
+        assert (W : WF (seg m i)) by (apply Hs; auto).
+        destruct (tclear_spec mix (seg m i) W) as [W' [Ha' Hsz']].
+        destruct (segs_ok_set m i (tclear (seg m i)) (sm_count m) Hs Hi W') as [S' [_ Hsum]].
+        { intros k' Hk'. rewrite Ha' in Hk'. congruence. }
+        eapply with_pc_inv; [exact I|exact Htid|exact Eth|eassumption| |].
+        * unfold thr_ok; simpl. pose proof (wf_size mix _ W). unfold tlen. destruct (t_zero (seg m i)); simpl in *; lia.
+        * rewrite Hsum, Hsz'. subst n m. simpl. unfold tlen. lia.
+      + intros E; inversion E; subst s'. eapply with_pc_inv; [exact I|exact Htid|exact Eth|eassumption| |]; [unfold thr_ok; simpl; auto|subst n m; simpl; lia].
+    - (* ClrSub *)
+      intros E; inversion E; subst s'.
+      eapply with_pc_inv; [exact I|exact Htid|exact Eth|eassumption| |].
+      + unfold thr_ok; simpl; auto.
+      + subst n m. simpl. lia.
   Qed.
 
   Lemma run_inv sched : forall s, Inv s -> Inv (run s sched).
@@ -275,12 +288,12 @@ Section ConcProofs.
   Lemma sum_owed_idle progs : sum_owed (map (fun p : list call => (Idle, p)) progs) = 0%Z.
   Proof. induction progs; simpl; auto. Qed.
 
-  Lemma init_inv m progs : SWF mix sidx m -> (forall p, In p progs -> ~ In CClear p) -> Inv (init m progs).
+  Lemma init_inv m progs : SWF mix sidx m -> Inv (init m progs).
   Proof.
-    intros S Hp. constructor; simpl.
+    intros S. constructor; simpl.
     - split; [apply S|]. split; [apply S|apply S].
     - rewrite sum_owed_idle, sum_sizes_same. rewrite (s_count mix sidx m S). lia.
-    - intros th Hin. apply in_map_iff in Hin. destruct Hin as [p [<- Hin]]. split; simpl; auto.
+    - intros th Hin. apply in_map_iff in Hin. destruct Hin as [p [<- Hin]]. unfold thr_ok; simpl; auto.
   Qed.
 
   Lemma quiescent_owed thr :
@@ -295,7 +308,7 @@ Section ConcProofs.
     (sum_owed thr <= Z.of_nat (length (filter (fun th : pc * list call => match fst th with Idle => false | _ => true end) thr)))%Z.
   Proof.
     induction thr as [|[p r] thr IH]; simpl; intros H; [lia|].
-    assert (thr_ok (p, r)) as [Hp _] by (apply H; left; reflexivity).
+    assert (Hp : thr_ok (p, r)) by (apply H; left; reflexivity). unfold thr_ok in Hp.
     specialize (IH (fun th Hin => H th (or_intror Hin))).
     destruct p; simpl in *; try lia.
     destruct isnew; lia.
@@ -304,16 +317,16 @@ Section ConcProofs.
   (* ------------------------------------------------------------ theorems *)
   (* Once every caller has returned, Len() is the number of reachable entries —
      for every schedule of any number of threads running SetWithCap / Set /
-     PutIfNotExists / Del / CompareAndSwap / CompareAndDelete. *)
+     PutIfNotExists / Del / CompareAndSwap / CompareAndDelete / Clear. *)
   Theorem count_eq_entries_at_quiescence m0 progs sched :
-    SWF mix sidx m0 -> (forall p, In p progs -> ~ In CClear p) ->
+    SWF mix sidx m0 ->
     let s := run (init m0 progs) sched in
     quiescent s = true ->
     SWF mix sidx (c_map s) /\ sm_len (c_map s) = entries s /\
     sm_len (c_map s) = Z.of_nat (length (sm_all (c_map s))) /\
     forall k v, In (k, v) (sm_all (c_map s)) <-> sabs sidx (c_map s) k = Some v.
   Proof.
-    intros S Hp s Hq.
+    intros S s Hq.
     assert (I : Inv s) by (apply run_inv, init_inv; auto).
     destruct I as [[Hn [Hw Hh]] Hl Ht].
     rewrite (quiescent_owed _ Hq) in Hl.
@@ -327,11 +340,11 @@ Section ConcProofs.
      most the number of calls in flight (the part of the capacity bound that
      holds; the full statement is refuted below). *)
   Theorem occupancy_bound_partial m0 progs sched :
-    SWF mix sidx m0 -> (forall p, In p progs -> ~ In CClear p) ->
+    SWF mix sidx m0 ->
     let s := run (init m0 progs) sched in
     (entries s <= sm_count (c_map s) + inside s)%Z.
   Proof.
-    intros S Hp s.
+    intros S s.
     assert (I : Inv s) by (apply run_inv, init_inv; auto).
     destruct I as [_ Hl Ht]. pose proof (owed_le_inside _ Ht). unfold entries, inside. lia.
   Qed.
@@ -429,8 +442,9 @@ Section ConcProofs.
     - intros E; inversion E; subst s'. apply with_pc_lock; auto. eapply lock_release; eauto; reflexivity.
     - destruct (i <? nsegs (c_map s)).
       + destruct (lock_free s i); [|discriminate]. intros E; inversion E; subst s'.
-        apply with_pc_lock; auto; [apply nsegs_set|]. eapply lock_same; eauto.
+        apply with_pc_lock; auto; [apply nsegs_set|]. eapply lock_acquire; eauto; reflexivity.
       + intros E; inversion E; subst s'. apply with_pc_lock; auto. eapply lock_same; eauto.
+    - intros E; inversion E; subst s'. apply with_pc_lock; auto. eapply lock_release; eauto; reflexivity.
   Qed.
 
   Lemma run_lock sched : forall s, LockInv s -> LockInv (run s sched).
@@ -502,12 +516,10 @@ Proof.
   - destruct occ_witness as [A [B [C _]]]. split; [exact A|]. rewrite B, C. lia.
 Qed.
 
-(* Clear() stores 0 after it has released the segments: a Set that lands in an
-   already cleared segment before the store is counted out. *)
+(* Clear concurrent with writers (the interleaving that lost a Set before aae41ee): now exact *)
 Definition clr_progs : list (list call) := [[CSet 9 1]; [CClear]; [CSet 15 2]].
-Definition clr_sched : list nat := repeat 0 10 ++ repeat 1 16 ++ repeat 2 10 ++ repeat 1 10.
-Theorem count_eq_entries_with_clear_refuted_lemma :
-  exists progs sched,
-    let s := c_run (init (new_segmap 4 0) progs) sched in
-    quiescent s = true /\ sm_len (c_map s) = 0%Z /\ entries s = 1%Z /\ sm_all (c_map s) = [(15%N, 2%N)].
-Proof. exists clr_progs, clr_sched. vm_compute. repeat split; reflexivity. Qed.
+Definition clr_sched : list nat := repeat 0 10 ++ repeat 1 31 ++ repeat 2 10 ++ repeat 1 10.
+Example clear_with_writer :
+  let s := c_run (init (new_segmap 4 0) clr_progs) clr_sched in
+  quiescent s = true /\ sm_len (c_map s) = 1%Z /\ entries s = 1%Z /\ sm_all (c_map s) = [(15%N, 2%N)].
+Proof. vm_compute. repeat split; reflexivity. Qed.
